@@ -4,6 +4,19 @@ import "time"
 
 // The registered harness runs per property.  Parameters are the stated bounds.
 var checks = map[string][]HarnessSpec{
+	"C17": {
+		{Name: "HarnessC17Tables", Pkg: "bql"},
+		{Name: "HarnessC17Witness", Pkg: "bql"},
+	},
+	"C18": {
+		{Name: "HarnessC18Rule", Pkg: "bql", Quick: map[string]int{"ALLRULES": 1, "L": 4}, Thorough: map[string]int{"ALLRULES": 1, "L": 6}, Note: "every rule re-rooted as START"},
+		{Name: "HarnessC18Rule", Pkg: "bql", Quick: map[string]int{"ALLRULES": 0, "L": 8}, Thorough: map[string]int{"ALLRULES": 0, "L": 11}, Note: "the real START"},
+		{Name: "HarnessC18Semantic", Pkg: "bql", Quick: map[string]int{"L": 5}, Thorough: map[string]int{"L": 8}},
+		{Name: "HarnessC18NoState", Pkg: "bql", Quick: map[string]int{"L": 2}, Thorough: map[string]int{"L": 4}},
+	},
+	"C19": {
+		{Name: "HarnessC19LockStep", Pkg: "store", Quick: map[string]int{"H": 2, "WARM": 1, "HANDLES": 2}, Thorough: map[string]int{"H": 3, "WARM": 1, "HANDLES": 2}, ThoroughWall: 90 * time.Minute},
+	},
 	"C01": {
 		{Name: "HarnessC01Names", Pkg: "store", Quick: map[string]int{"H": 3}, Thorough: map[string]int{"H": 4}},
 		{Name: "HarnessC01Triples", Pkg: "store", Quick: map[string]int{"PRE": 1, "B": 1, "TEMPORAL": 0}, Thorough: map[string]int{"PRE": 2, "B": 1, "TEMPORAL": 0}},
@@ -84,6 +97,9 @@ func assumptionsFor(prop string) []string {
 }
 
 var propAssumptions = map[string][]string{
+	"C17": {"the grammar tables are finite: every rule and every pair of alternatives is covered (the rule and alternative indices are solver variables, concretized exhaustively)", "witness statements are built from the tables (shortest expansions, one candidate per place where the rule is mentioned) and validated by running the real lexer and parser with ProcessStart probes on a private copy of BQL()"},
+	"C18": {"token types are solver variables (one byte each, every type except Error/EOF) injected through the overlay shim grammar.NewLLkFromTokens; token texts come from a fixed sample per type", "reference recogniser: predictive descent over the same Grammar value (optional part taken iff its first token is next)", "statement 1 of the no-state check: every token sequence up to L the plain parser inspects, optionally prefixed by a cut-off INSERT; statement 2 from a corpus of nine statements (all kinds)"},
+	"C19": {"data: three concrete triples (two sharing a subject); the quantified space is the history (skeleton choices: operation, handle, argument) and the lookup options (MaxElements, Offset symbolic in [0,3], so key coincidences are solver decisions)", "pre-history: two triples added through handle 0 and the full listing read once through every handle (warms every cache)", "reads compared as sequences by pointer identity of the stored triple objects; lock-step oracle = a plain memory store"},
 	"C01": {"universe: subjects /t<a|b>, predicate ids a|b (immutable, or temporal at one of two spellings of one instant), objects node /t<a|b> or text a|b; component bytes are solver variables, kinds are skeleton choices", "pre-state produced by the real code from Add(b1);Remove(b2); one further Add/Remove and interference on a second graph", "SHA-1 as in C06 (equalities of whole hash outputs rewritten to input equalities)"},
 	"C02": {"as C01; lookup arguments are fresh symbolic components (the solver decides whether they coincide with stored ones); options = DefaultLookup", "results are identified with the stored triple whose component object the driver handed out (pointer identity)"},
 	"C09": {"as C02; anchors and window bounds from a concrete pool (two spellings of one instant, a later instant, +1ns); MaxElements and Offset in [0,3] as skeleton choices; the full-range page arithmetic is HarnessC09PageOverflow (n,k in (0,2^32))", "the reference post-processes the default-options result of the same lookup (assume-guarantee with C02)", "stored predicates do not share their identifier with a query predicate of the other kind (that mismatch is C02's known finding)"},
